@@ -36,6 +36,31 @@ pub fn rd_dt(dt: &DateTime) -> i128 {
     (z.timestamp() as i128 + tl::EPOCH_1970_S as i128) * tl::NS + z.nano() as i128
 }
 
+/// Builds the same instant through one of several public routes (constructor + add, operator
+/// with a Duration or a Time landing on the instant, set_time, ...). Every route must give an
+/// indistinguishable value; a route that leaves a non-normalised value behind shows up in the
+/// checks that use such operands.
+pub fn mk_dt_route(instant: i128, route: u8) -> DateTime {
+    let day = instant.div_euclid(tl::DAY_NS);
+    let tod = instant.rem_euclid(tl::DAY_NS);
+    let fits = |i: i128| tl::representable(i);
+    match route % 8 {
+        1 if fits(instant - tod) => mk_dt(instant - tod) + Time::from_nanos(tod as u64).unwrap(),
+        2 if fits(instant - tl::DAY_NS) && fits(instant - tod) => {
+            // (previous day, same tod) + Time that carries it exactly to the target
+            let t = Time::from_nanos(((tl::DAY_NS - 1) as u64).min(86_399_999_999_999)).unwrap();
+            let base = instant - (tl::DAY_NS - 1);
+            if fits(base) { mk_dt(base) + t } else { mk_dt(instant) }
+        }
+        3 if fits(instant - 1_500_000_000) => mk_dt(instant - 1_500_000_000) + std::time::Duration::new(1, 500_000_000),
+        4 if fits(instant + 86_400 * tl::NS + 7) => mk_dt(instant + 86_400 * tl::NS + 7) - std::time::Duration::new(86_400, 7),
+        5 if fits(instant + tod) && tod > 0 => mk_dt(instant + tod) - Time::from_nanos(tod as u64).unwrap(),
+        6 => mk_dt(day * tl::DAY_NS).set_time(Time::from_nanos(tod as u64).unwrap()),
+        7 if fits(instant - 3_600 * tl::NS) => mk_dt(instant - 3_600 * tl::NS).add_hours(1),
+        _ => mk_dt(instant),
+    }
+}
+
 /// Canonical form of a DateTime as seen by *every* family of observers: the UTC accessors
 /// (as_ymdhms / as_hms, which read the stored fields directly), the offset-0 getters, and the
 /// offset-0 rendering must all agree with the instant. A value that denotes the right instant
